@@ -11,6 +11,16 @@ NOTE = ("trusted: TLC 1.8/SANY/CommunityModules; harness/refcrypto.py (self-test
 
 # pid -> (technique, level text, design ref)
 CHECKS = {
+    "C02": ("TLA+ LanV2Packet.tla: TLC checks encode/decode round trip for every frame length 0..255 under a model cipher/MAC "
+            "(MC_V2); TLC judges real _Packet.encode / LAN.send wire bytes and _Packet.decode of independently built packets with "
+            "V2PacketClause/V2Decode on reference-evaluated AES/MD5 (Trace_V2)",
+            "Exhaustive in-model length/padding arithmetic; byte-exact conformance of the real codec in both directions for all "
+            "lengths, id boundaries and clock instants, with the spec deciding spans/padding/placement.", "5 C02"),
+    "C03": ("TLA+ LanV2Packet.tla V2Decode decision procedure: TLC checks every single-bit flip / truncation of authentic packets "
+            "is an error under a bit-error-detecting model MAC (MC_V2); TLC decides the required outcome for every real mutant fed "
+            "to _Packet.decode / LAN.send (Trace_V2)",
+            "In-model tamper enumeration; all single-bit flips, truncations, substitutions and random corruptions of authentic "
+            "packets replayed into the real decoder (with the authentic packet decoded just before), outcome decided by TLC.", "5 C03"),
     "C10": ("TLA+ AcCommand.tla: TLC proves VendorDecode40 o SetStateBody = id on exhaustive per-field slices (MC_C10); "
             "TLC judges every 0x40 frame produced by the real apply() against the vendor layout (Trace_C10)",
             "Bounded-exhaustive model check of the layout plus TLC-judged frames from the real code for every field value, "
